@@ -76,8 +76,7 @@ def getter_fields(m):
 
 def run(ctx):
     src = ctx.src
-    ai = EngineAI(src)
-    ai.run_all()
+    ai = EngineAI.shared(src)
     m = ai.m
     pol = ai.pol
     for rid, text in (
